@@ -371,3 +371,86 @@ def has_fused_aromatic(smi):
                     all(mol.GetAtomWithIdx(i).GetSymbol() == 'C' for i in b):
                 return True
     return False
+
+
+# ---- bounded exhaustive small molecules ---------------------------------------------------------------------
+_small_cache = {}
+
+
+def enumerate_small(max_heavy=3, elements=('C', 'O'), metal=None, radicals=True):
+    """every connected molecule on <= max_heavy heavy atoms over `elements` with bond orders 1-3 and optional three-ring,
+    each also with one radical site (one H removed) and, if `metal` is given, with 1-3 hydrogens of one atom replaced by
+    bonds to metal atoms.  Returns sorted canonical SMILES."""
+    key = (max_heavy, tuple(elements), metal, radicals)
+    if key in _small_cache:
+        return _small_cache[key]
+    from rdkit import RDLogger
+    RDLogger.DisableLog('rdApp.*')          # most candidate graphs violate a valence; that is what the sanitiser is for
+    order = {1: Chem.BondType.SINGLE, 2: Chem.BondType.DOUBLE, 3: Chem.BondType.TRIPLE}
+    base = set()
+
+    def add(els, bonds):
+        m = Chem.RWMol()
+        for e in els:
+            m.AddAtom(Chem.Atom(e))
+        for a, b, o in bonds:
+            m.AddBond(a, b, order[o])
+        try:
+            mol = m.GetMol()
+            Chem.SanitizeMol(mol)
+            base.add(Chem.MolToSmiles(mol))
+        except Exception:
+            pass
+    for e1 in elements:
+        add([e1], [])
+        if max_heavy >= 2:
+            for e2 in elements:
+                for o in (1, 2, 3):
+                    add([e1, e2], [(0, 1, o)])
+                if max_heavy >= 3:
+                    for e3 in elements:
+                        for o1 in (1, 2, 3):
+                            for o2 in (1, 2, 3):
+                                add([e1, e2, e3], [(0, 1, o1), (1, 2, o2)])
+                        add([e1, e2, e3], [(0, 1, 1), (1, 2, 1), (0, 2, 1)])
+                        add([e1, e2, e3], [(0, 1, 2), (1, 2, 1), (0, 2, 1)])
+                        if max_heavy >= 4:
+                            for e4 in elements[:2]:
+                                add([e1, e2, e3, e4], [(0, 1, 1), (1, 2, 1), (1, 3, 1)])
+                                add([e1, e2, e3, e4], [(0, 1, 1), (1, 2, 1), (2, 3, 1)])
+                                add([e1, e2, e3, e4], [(0, 1, 2), (1, 2, 1), (2, 3, 2)])
+                                add([e1, e2, e3, e4], [(0, 1, 1), (1, 2, 2), (2, 3, 1)])
+                                add([e1, e2, e3, e4], [(0, 1, 1), (1, 2, 1), (2, 3, 1), (0, 3, 1)])
+    out = set(base)
+    for smi in sorted(base):
+        mol = Chem.MolFromSmiles(smi)
+        for a in mol.GetAtoms():
+            h = a.GetTotalNumHs()
+            if h == 0:
+                continue
+            if radicals:
+                rw = Chem.RWMol(mol)
+                x = rw.GetAtomWithIdx(a.GetIdx())
+                x.SetNoImplicit(True)
+                x.SetNumExplicitHs(h - 1)
+                x.SetNumRadicalElectrons(1)
+                try:
+                    m2 = rw.GetMol()
+                    Chem.SanitizeMol(m2)
+                    out.add(Chem.MolToSmiles(m2))
+                except Exception:
+                    pass
+            if metal:
+                for k in range(1, min(h, 3) + 1):
+                    rw = Chem.RWMol(mol)
+                    for _ in range(k):
+                        j = rw.AddAtom(Chem.Atom(metal))
+                        rw.AddBond(a.GetIdx(), j, Chem.BondType.SINGLE)
+                    try:
+                        m2 = rw.GetMol()
+                        Chem.SanitizeMol(m2)
+                        out.add(Chem.MolToSmiles(m2))
+                    except Exception:
+                        pass
+    _small_cache[key] = sorted(out)
+    return _small_cache[key]
